@@ -1606,6 +1606,56 @@ func RunBer(in, out string) error {
 			for i := 0; i < c.N; i++ {
 				r.decodeChild(c, fmt.Sprintf("cold:%d", i), []byte(fmt.Sprint(c.Seed+int64(i))), SchemaTypes["CHFRecord"], "@cold", "")
 			}
+		case "sizes":
+			// primitive elements of every content length 0..17 (and 127, 128) with contents at the edges of each type's range:
+			// all zero, all ones, a leading 00 / ff / 7f / 80 before ones or zeros; bare, under a context tag, and as the
+			// member of a schema SEQUENCE
+			fills := func(n int) [][]byte {
+				mk := func(first, rest byte) []byte {
+					b := bytes.Repeat([]byte{rest}, n)
+					if n > 0 {
+						b[0] = first
+					}
+					return b
+				}
+				return [][]byte{mk(0, 0), mk(0xff, 0xff), mk(0, 0xff), mk(0xff, 0), mk(0x7f, 0xff), mk(0x80, 0), mk(1, 0), mk(0, 0x80)}
+			}
+			tagOf := map[string]byte{"int": 2, "int32": 2, "goint": 2, "enum": 10, "bool": 1, "bits": 3, "octets": 4, "utf8": 12, "null": 5, "oid": 6}
+			names := make([]string, 0, len(tagOf))
+			for n := range tagOf {
+				names = append(names, n)
+			}
+			sort.Strings(names)
+			lens := []int{}
+			for n := 0; n <= 17; n++ {
+				lens = append(lens, n)
+			}
+			lens = append(lens, 127, 128)
+			hdr := func(id byte, n int) []byte {
+				if n < 128 {
+					return []byte{id, byte(n)}
+				}
+				return []byte{id, 0x81, byte(n)}
+			}
+			for _, tn := range names {
+				for _, n := range lens {
+					for _, f := range fills(n) {
+						r.decodeOnly(c, "sizes", append(hdr(tagOf[tn], n), f...), prims[tn], tn, "")
+						r.decodeOnly(c, "sizes", append(hdr(0x83, n), f...), prims[tn], tn, "tagNum:3")
+					}
+				}
+			}
+			// as members: UsedUnitContainer.dataVolumeUplink [3] / dataTotalVolume [1] (INTEGER), localSequenceNumber [2]
+			if t, ok := SchemaTypes["UsedUnitContainer"]; ok {
+				for _, n := range lens {
+					for _, f := range fills(n) {
+						for _, tag := range []byte{0x81, 0x82, 0x83, 0x84, 0x85, 0x86, 0x87, 0x88} {
+							inner := append(hdr(tag, n), f...)
+							r.decodeOnly(c, "sizes", append(hdr(0x30, len(inner)), inner...), t, "UsedUnitContainer", "")
+						}
+					}
+				}
+			}
 		case "hot":
 			// concurrent marshalling / decoding of the same values in fresh processes
 			for i := 0; i < c.N; i++ {
